@@ -74,7 +74,7 @@ var classes = []lossClass{
 		}},
 	{"pBdr", wKidOf("pBdr", "pPr"), regexp.MustCompile(`\.Properties\.ParagraphBorder$`),
 		func(o ops.Op) bool {
-			return o.K == "hrule" || (o.K == "pborder" && (ob(o, 0) || ob(o, 1) || ob(o, 2) || ob(o, 3)))
+			return o.K == "hrule" || ((o.K == "pborder" || o.K == "pborder4" || o.K == "cellpborder4") && (ob(o, 0) || ob(o, 1) || ob(o, 2) || ob(o, 3)))
 		}},
 	{"runBreak", wKidOf("br", "r"), regexp.MustCompile(`\.Runs\[\d+\]\.Break$`),
 		func(o ops.Op) bool { return o.K == "pagebreak" || o.K == "ppagebreak" }},
